@@ -325,4 +325,25 @@ PROPS = {
         assumptions=COMMON_ASSUME,
         partial=["memory safety of the unsafe shims and process-level behaviour (abort on panic across FFI) are observed only"],
     ),
+    "C20": dict(
+        level="proof",
+        needs_binary=True,
+        harness_timeout=3600,
+        trusted_base=[KERNEL, CORR,
+                      "modelled: the logic only (lean/LdpcV/Model/Cli.lean: the two argument tables, the framing of `encode`, the Eb/N0 list); NOT modelled: clap "
+                      "parsing, file I/O, process exit status, terminal output — those are observed on the binary built from /repo's working tree "
+                      "(cargo build --release into harness/target/repo) and run as a subprocess",
+                      "the matrices printed by the code-generation subcommands are compared with the LIBRARY's alist() of the same code (itself tied to the models by "
+                      "C06 / C07 / C08), not re-derived from the model"],
+        rule=("the built binary as a subprocess: dvbs2: every (rate, --short) pair of the table in the thorough tier (quick: the 10 short codes, 2 normal codes) plus "
+              "invalid rate strings, stdout identified among the library alists of the 21 codes; ccsds: 5 rate strings x 5 block sizes (k = 16384 thorough), ccsds-c2; "
+              "--girth for DVB-S2 1/2 normal and CCSDS 1/2 1024 (must print 'Code girth = 6'); systematic on 30 (300) alist files (stdout = library result, "
+              "rank-deficient ones must fail cleanly); peg / mackay-neal on 20 (200) configurations (stdout = run(seed).alist()); encode on 60 (600) (matrix, pattern, "
+              "0-4 whole words + partial word, bytes other than 0/1) compared byte for byte with the model framing; 12 invalid inputs (missing files, the D2 alist, "
+              "junk, bad / non-dividing patterns, unknown decoder, bad block size): non-zero exit, message on stderr, no 'panicked at'; ber: 4 Eb/N0 grids, one result "
+              "line per point with frame errors = target, BER = bit errors /(k frames), FER = errors / frames to printed precision; non-trivial = every case; "
+              "distinct = distinct canonical input"),
+        assumptions=COMMON_ASSUME,
+        partial=["exit status, stderr text and file I/O are observed only; the ber result-line rule of Progress::work is checked on the output file, not modelled"],
+    ),
 }
